@@ -630,11 +630,15 @@ func shMessageValue(md protoreflect.MessageDescriptor, depth int) protoreflect.M
 		return m // present but empty
 	}
 	if depth <= 0 {
-		// innermost level: scalars only
+		// innermost level: scalars only (of a message j5 reads as a oneof: one member only, as below)
+		inner := j5schema.IsOneofWrapper(md)
 		for i := 0; i < md.Fields().Len(); i++ {
 			f := md.Fields().Get(i)
 			if f.Kind() != protoreflect.MessageKind && !f.IsList() && !f.IsMap() && f.ContainingOneof() == nil {
 				m.Set(f, shScalarValue(f))
+				if inner {
+					break
+				}
 			}
 		}
 		return m
